@@ -1,7 +1,8 @@
 /-
 C07 - composition of the client model with the reference server: the two exchange lines in
 rounds (all pending client lines to the server, its replies to the client) until nobody has
-anything to say or the fuel runs out.  Core Lean only.
+anything to say or the fuel runs out - at the level of lines (`handshake`) and of bytes cut into
+arbitrary reads (`handshakeBytes`).  Core Lean only.
 -/
 import TxdbusModel.Auth.Client
 import TxdbusModel.Auth.SpecServerRef
@@ -19,12 +20,33 @@ def handshakeLoop (cfg : SpecServer.Cfg) (envAt : Nat → Env) : Nat → Sys →
   | 0, sys, _ => sys
   | n + 1, sys, pending =>
     let r := SpecServer.feed cfg sys.server pending
-    let c' := processLines envAt sys.client r.2
+    let c' := r.2.foldl (lineReceived envAt) sys.client
     let new := (sends c'.trace).drop (sends sys.client.trace).length
     let sys' : Sys := { client := c', server := r.1,
                         transcript := sys.transcript ++ pending.map (fun l => (true, l))
                                         ++ r.2.map (fun l => (false, l)) }
     if new.isEmpty then sys' else handshakeLoop cfg envAt n sys' new
+
+/-- The same composition at the level of bytes: every answer of the server (line + delimiter) reaches
+the client cut into reads by `cut` (any function with `(cut x).flatten = x`: one read, byte by byte,
+a boundary inside the delimiter, empty reads in between ...). -/
+def handshakeLoopBytes (cut : Bytes → List Bytes) (cfg : SpecServer.Cfg) (envAt : Nat → Env) :
+    Nat → Sys → List Bytes → Sys
+  | 0, sys, _ => sys
+  | n + 1, sys, pending =>
+    let r := SpecServer.feed cfg sys.server pending
+    let c' := r.2.foldl (fun c l => (cut (l ++ CRLF)).foldl (dataReceived envAt) c) sys.client
+    let new := (sends c'.trace).drop (sends sys.client.trace).length
+    let sys' : Sys := { client := c', server := r.1,
+                        transcript := sys.transcript ++ pending.map (fun l => (true, l))
+                                        ++ r.2.map (fun l => (false, l)) }
+    if new.isEmpty then sys' else handshakeLoopBytes cut cfg envAt n sys' new
+
+def handshakeBytes (cut : Bytes → List Bytes) (pref : List Bytes) (unix : Bool) (cfg : SpecServer.Cfg)
+    (envAt : Nat → Env) (fuel : Nat) : Sys :=
+  let c := connectionMade pref unix (envAt 0)
+  handshakeLoopBytes cut cfg envAt fuel { client := c, server := .waitingForAuth, transcript := [] }
+    (sends c.trace)
 
 def handshake (pref : List Bytes) (unix : Bool) (cfg : SpecServer.Cfg) (envAt : Nat → Env) (fuel : Nat) : Sys :=
   let c := connectionMade pref unix (envAt 0)
